@@ -458,6 +458,12 @@ func (e *engine) finish() {
 		c.Violation(s, v.what, map[string]any{"spec": v.sp})
 	}
 	pprof.StopCPUProfile()
+	if pf := os.Getenv("C07_MEMPROF"); pf != "" { // development aid
+		if f, err := os.Create(pf); err == nil {
+			pprof.Lookup("heap").WriteTo(f, 0)
+			f.Close()
+		}
+	}
 	c.Finish()
 }
 
@@ -1033,7 +1039,8 @@ func main() {
 		pprof.StartCPUProfile(f)
 		defer pprof.StopCPUProfile()
 	}
-	debug.SetGCPercent(300)
+	debug.SetGCPercent(150)
+	debug.SetMemoryLimit(4 << 30) // soft limit: the collector works harder instead of letting the heap overshoot on a starved machine
 	e := newEngine(c)
 	for phase := 0; phase < 3; phase++ {
 		e.pass(phase)
